@@ -241,10 +241,14 @@ Definition cu_MaxTile (ci limit : Z) : Z :=
   else maxtile_grow 31 ci start limit.
 
 (** * CellUnionFromRange: [for id := begin.MaxTile(end); id != end; id = id.Next().MaxTile(end)].
-    A range is tiled by at most 2*3*30 cells inside its first and last face plus 4 faces. *)
-Fixpoint from_range_loop (fuel : nat) (id e : Z) : list Z :=
-  match fuel with
-  | O => []
-  | S k => if id =? e then [] else id :: from_range_loop k (cu_MaxTile (s2_CellID_Next id) e) e
+    [fr_run n] runs the loop for at most 2^n iterations (it stops as soon as id = end) and
+    returns the cells appended together with the loop variable reached; 2^64 iterations
+    cover every uint64 range because each iteration advances RangeMin(id) by at least 2. *)
+Fixpoint fr_run (n : nat) (id e : Z) : list Z * Z :=
+  match n with
+  | O => if id =? e then ([], id) else ([id], cu_MaxTile (s2_CellID_Next id) e)
+  | S k => let '(l1, id1) := fr_run k id e in
+           if id1 =? e then (l1, id1)
+           else let '(l2, id2) := fr_run k id1 e in (l1 ++ l2, id2)
   end.
-Definition cu_FromRange (b e : Z) : list Z := from_range_loop 400 (cu_MaxTile b e) e.
+Definition cu_FromRange (b e : Z) : list Z := fst (fr_run 64 (cu_MaxTile b e) e).
